@@ -23,15 +23,18 @@ from vf import c15gen as G
 ID = "C15"
 RULE = ("case = one program for one of 6800/6802/87C00/4004: 1-6 code runs (2-14 instructions from the form table, "
         "operands at boundary and random values, last instruction terminal) interleaved with data islands (random "
-        "bytes) and address tables, 1-4 regions (relative gaps; 'top': the image ends at the last address of the "
-        "address space; 87C00 'rom': code in page FFh reached by CALLP/CALL plus the CALLV table at FFC0h), "
-        "branch/call targets chosen among the program's instruction labels within the encodable range, 1-4 entry "
-        "points (plain / named / indirect via an address table), 0-3 -symbol names on reachable instructions, "
-        "loaded with -binfile (one per region, optionally with explicit length and trailing junk in the file) or "
-        "-hexfile (p2hex -F Intel, record length 16/8/32/1), optional -h; fixed cases: every form of the three "
-        "tables once in a minimal program, and the minimised inputs of all defects found; non-trivial = at least "
-        "one reachable branch or call into the image and at least one data island or address table; distinct by "
-        "(cpu, set of reachable forms)")
+        "bytes) and address tables, 1-5 regions (relative gaps; 'down': a region below the first one, so that files are not in address order; 'top': the image ends at the last address of the "
+        "address space; 87C00 'rom': code in page FFh reached by CALLP plus the CALLV table at FFC0h), branch/call "
+        "targets chosen among the program's instruction labels within the encodable range, 1-4 entry points (plain "
+        "/ named / indirect via an address table), 0-3 -symbol names on reachable instructions, loaded with "
+        "-binfile (one per region, optionally with explicit length and trailing junk in the file, optionally one "
+        "region cut into two files at an arbitrary byte, files in either order) or -hexfile (p2hex -F Intel, "
+        "record length 2...254 (the documented range of p2hex -l), LF or CR LF), optional -h.  Fixed cases (always run): every form of the three "
+        "tables alone; an exhaustive enumeration of every form x every register / condition / addressing-mode "
+        "combination and of every numeric operand at its boundary values (about 4 900 statements in 63 batch programs); "
+        "programs of 20 regions; the minimised inputs of all 21 defects found.  non-trivial = at least one "
+        "reachable branch or call into the image and at least one data island or address table; distinct by (cpu, "
+        "set of reachable forms); forms_<cpu> in the evidence = forms seen reachable / forms in the table")
 ASSUMPTIONS = [
     "dasl's interface is taken from das.c (the manual does not describe it): -cpu <name>; -binfile "
     "<file>[@start[,length[,granularity]]] (several allowed, numbers as decimal, $hex, 0xhex or hexH); -hexfile "
@@ -39,6 +42,8 @@ ASSUMPTIONS = [
     "MSB|LSB)[,<name>]; -symbol <address>=<name>; -h for lower-case hex digits; the source text is written to "
     "stdout, each traced area introduced by its own ORG, followed by the comment block '; disassembled area:' / "
     "'; <start>...<end> (code|data)'",
+    "the byte order of an indirect entry address is always given for the 87C00 (LSB); das.c defaults to MSB for "
+    "every CPU ('TODO: depend on CPU') and the usage text states no default",
     "the CPU statement is not part of dasl's output; the harness prefixes `cpu <name>` with asl's name for the "
     "target (asl has no CPU called 6802; the MC6802 executes the 6800 instruction set, so `cpu 6800` is used for it)",
     "'disassembling ... starting at its entry points' is read as control-flow tracing: an instruction reached by "
@@ -73,7 +78,7 @@ OUT_LIMIT = 2 << 20
 
 
 def budget(tier):
-    return dict(examples=2400 if tier == "quick" else 50000, shards=16)
+    return dict(examples=4000 if tier == "quick" else 50000, shards=16)
 
 
 # ---------------------------------------------------------------- generation
@@ -110,7 +115,7 @@ def strategy_(d, tier):
     table = G.TABLE[cpu]
     nruns = d.choice([2, 1, 3, 2, 3, 4, 6])
     big = tier != "quick"
-    layout = d.choice(["flat", "flat", "flat", "gaps", "gaps", "top", "rom"])
+    layout = d.choice(["flat", "flat", "flat", "gaps", "gaps", "top", "rom", "down"])
     if layout == "rom" and cpu != "87C00":
         layout = "gaps"
     if layout == "top" and cpu == "87C00":
@@ -132,6 +137,11 @@ def strategy_(d, tier):
         base = d.int(0, space - 0x800)
     elif base == -2:
         base = d.choice([0xf0, 0xfe, 0x1f0, 0x7f80, 0x8000, 0xe000, 0xf700]) % (space - 0x800)
+    if layout == "down" and nruns > 1:
+        # the second region lies *below* the first: the code file and the hex file are not in address order
+        base = min(max(base, 0x800), space - 0x800)
+        cut = next(i for i, sg in enumerate(segs) if i > 0 and sg["k"] == "code")
+        segs.insert(cut, dict(k="org", at=base - 0x800 + d.choice([0, 1, 0x7f0 - 0x400])))
     if layout == "rom":
         # code in page FFh (CALLP targets; CALL to it is encoded as CALLP) and the CALLV vector table
         segs.append(dict(k="org", at=0xff00 + d.choice([0, 0, 1, 0x40])))
@@ -146,8 +156,8 @@ def strategy_(d, tier):
     syms = [d.int(0, 255) for _ in range(d.choice([0, 0, 0, 1, 2, 3]))]
     return dict(cpu=cpu, base=base, top=layout == "top", segs=segs, entries=entries, syms=syms,
                 load=d.choice(["bin", "hex", "bin"]), pad=d.choice([0, 0, 1, 7]),
-                split=d.int(0, 400) if d.int(0, 3) == 0 else None, rev=d.bool(), crlf=d.bool(),
-                hexlen=d.choice([16, 16, 8, 32, 1]), lower=d.bool(), fmt=[d.int(0, 3) for _ in range(4)])
+                split=d.int(0, 400) if d.int(0, 3) == 0 else None, rev=d.bool(), crlf=d.bool(), cpulast=d.int(0, 3) == 0,
+                hexlen=d.choice([16, 16, 8, 32, 2, 100, 200, 254]), lower=d.bool(), fmt=[d.int(0, 3) for _ in range(4)])
 
 
 def strategy(tier):
@@ -517,7 +527,7 @@ def execute(case):
             raise GenError("image leaves the address space")
         # conversion
         fmt = case["fmt"]
-        argv = ["-cpu", cpu]
+        argv = [] if case.get("cpulast") else ["-cpu", cpu]
         if case["lower"]:
             argv.append("-h")
             classes.append("opt:-h")
@@ -570,7 +580,10 @@ def execute(case):
         for i, e in enumerate(entries):
             if e["vec"]:
                 v, j = e["vec"]
-                arg = "(%s,2,%s)" % (cnum(v.addr + 2 * j, fmt[(i + 1) % 4]), "LSB" if cpu == "87C00" else "MSB")
+                # byte order: always explicit for the little-endian TLCS-870 (das.c: default MSB, "TODO: depend on
+                # CPU"); for the big-endian targets the default is exercised too
+                order = ",LSB" if cpu == "87C00" else (",MSB", "", ",msb")[(fmt[i % 4] + i) % 3]
+                arg = "(%s,2%s)" % (cnum(v.addr + 2 * j, fmt[(i + 1) % 4]), order)
                 ncls.add("entry:vector")
             else:
                 arg = cnum(st[e["stmt"]].addr, fmt[(i + 2) % 4])
@@ -587,6 +600,9 @@ def execute(case):
             nsym += 1
         if nsym:
             ncls.add("opt:-symbol")
+        if case.get("cpulast"):
+            argv += ["-CPU", cpu]           # option names are matched without regard to case
+            ncls.add("opt:cpu-last")
         classes += sorted(ncls)
         classes.append("entries:%d" % len(entries))
         classes.append("regions:%d" % len(regions))
@@ -794,7 +810,8 @@ def batches(cpu, per_run=28, runs_per_case=4):
             segs.append(dict(k="data", b="%02x" % (0x38 + j)) if j % 2 == 0 else dict(k="vec", t=[j, ncode - 1]))
         yield dict(cpu=cpu, base=(0x100, 0x2f0, 0x10, 0x8000)[(i // runs_per_case) % 4] % (G.ADDR_SPACE[cpu] - 0x800),
                    top=False, segs=segs, entries=entries, syms=[], load=("bin", "hex")[(i // runs_per_case) % 2],
-                   pad=0, split=None, rev=False, hexlen=16, lower=bool((i // runs_per_case) % 3 == 0),
+                   pad=0, split=None, rev=False, hexlen=(16, 254, 200, 100, 32)[(i // runs_per_case) % 5],
+                   crlf=bool((i // runs_per_case) % 4 == 1), lower=bool((i // runs_per_case) % 3 == 0),
                    fmt=[0, 1, 2, 3])
 
 
@@ -856,6 +873,13 @@ def fixed_cases(tier):
     out.append(mk("87C00", [["nop", []], ["ret", []]], data="", base=0xfffe))
     out.append(mk("6800", [["neg_ext", [G.LABREF]], ["rts", []]], split=1))                        # 70 01 | 00
     out.append(mk("6800", [["jsr_ext", [0]], ["rts", []]], split=1, rev=T))
+    # cpx usr0 with usr0 = $100 a few bytes ahead of code that starts below $100 (two consistent layouts)
+    out.append(mk("6800", [["bmi", [0]], ["jsr_ext", [0]], ["bge", [0]], ["aba", []], ["bvs", [0]], ["cpx_ext", [0x100]],
+                           ["stx_exs", [0]], ["bvc", [0]], ["bcs", [0]], ["ble", [0]], ["rts", []]],
+                  base=0xf0, data="", syms=[7]))
+    out.append(mk("6800", [["lda_ext", [0, G.LABREF + 2]], ["sta_ext", [1, G.LABREF + 2]], ["rts", []]], base=0xfb,
+                  data="", entries=[dict(s=0, name=False, vec=None), dict(s=2, name=T, vec=None)]))
+    # a batch of long programs delivered with long hex records (more than 144 data bytes per record)
     return out
 
 
